@@ -924,9 +924,13 @@ class SBytes(object):
         key = tuple(a if isinstance(a, bytes) else (a[1] if isinstance(a, tuple) else a.key) for a in self.atoms)
         return SBytes([Blob(('subscript', key, repr(idx)), ln)])
 
-    def decode(self, enc='utf-8'):
+    def decode(self, enc='utf-8', errors='strict'):
         if self.is_concrete():
-            return self.concrete().decode(enc)
+            return self.concrete().decode(enc, errors)
+        if str(enc).lower().replace('_', '-') not in ('utf-8', 'utf8') or errors != 'strict':
+            # the assumed inverse pair is encode('utf-8') / decode('utf-8') with strict error handling; any other codec or
+            # error handler is a different function (e.g. 'utf-8-sig' drops a leading U+FEFF)
+            raise Unsupported('bytes.decode(%r, %r) of a symbolic value: no model' % (enc, errors))
         if len(self.atoms) == 1 and isinstance(self.atoms[0], Blob) and \
                 isinstance(self.atoms[0].decoded, SStr):
             return self.atoms[0].decoded
